@@ -81,12 +81,29 @@ def show_entry_real(e):
 
 
 # ---------------------------------------------------------------- (i) model vs real objects
-def compiler_data(src, decimals=True):
+_TMP = {"dir": None}
+
+
+def bundle_for(K, extra=None):
+    """input bundle holding the contract's library module (and extra files)"""
+    import tempfile
+    from vyper.compiler.input_bundle import FilesystemInputBundle
+    if _TMP["dir"] is None:
+        _TMP["dir"] = Path(tempfile.mkdtemp(prefix="c19_"))
+    d = Path(tempfile.mkdtemp(dir=_TMP["dir"]))
+    if K.get("lib"):
+        (d / "lib0.vy").write_text(K["lib"])
+    for n, t in (extra or {}).items():
+        (d / n).write_text(t)
+    return FilesystemInputBundle([d])
+
+
+def compiler_data(src, decimals=True, input_bundle=None):
     from vyper.compiler.input_bundle import FileInput
     from vyper.compiler.phases import CompilerData
     from vyper.compiler.settings import Settings
     p = Path("gen.vy")
-    return CompilerData(FileInput(source_id=-1, contents=src, path=p, resolved_path=p),
+    return CompilerData(FileInput(source_id=-1, contents=src, path=p, resolved_path=p), input_bundle,
                         settings=Settings(enable_decimals=decimals))
 
 
@@ -96,7 +113,7 @@ def part_model_differential(ctx, contracts):
     distinct_types = set()
     for ci, K in enumerate(contracts):
         try:
-            cd = compiler_data(K["src"])
+            cd = compiler_data(K["src"], input_bundle=bundle_for(K))
             mt = cd.annotated_vyper_module._metadata["type"]
             _ = cd.ir_runtime if ci < 2 else None
         except Exception as ex:  # a generated, valid contract is rejected: the tie cannot be evaluated
@@ -242,7 +259,7 @@ def drive(ctx, K, cfg, rnd, stats):
     with warnings.catch_warnings():
         warnings.simplefilter("ignore")
         out = compile_src(K["src"], cfg, formats=("abi", "method_identifiers", "bytecode", "interface", "external_interface"),
-                          contract_path="gen.vy")
+                          contract_path="gen.vy", input_bundle=bundle_for(K))
     abi = out["abi"]
     info = {"config": cfg.name, "src": K["src"]}
 
@@ -408,7 +425,7 @@ def drive(ctx, K, cfg, rnd, stats):
                 fail("value accepted iff payable violated", sig=sig, mutability=mut, accepted=rv.ok)
             if nin == len(decl) and f["kind"] != "setter":
                 calls_for_caller.append((e, vals, data))
-        elif name in gvar and gvar[name]["kind"] != "storage":
+        elif name in gvar and gvar[name]["kind"] in ("constant", "immutable"):
             pv = gvar[name]
             base = norm(pv["pyval"]) if pv["kind"] == "constant" else norm(imm_v)
             if any(i["type"] != "uint256" for i in e["inputs"]) or mut != "view":
@@ -422,6 +439,14 @@ def drive(ctx, K, cfg, rnd, stats):
                 fail("constant/immutable getter value differs", sig=sig, got=str(dv), expected=str(descend(base, nin)))
             if ch.call(addr, data, value=1).ok:
                 fail("view getter accepted value", sig=sig)
+            stats["getter_roundtrips"] += 1
+            calls_for_caller.append((e, [0] * nin, data))
+        elif name in gvar and gvar[name]["kind"] == "exported":
+            data = sel + encode_args(e["inputs"], [0] * nin)
+            r = ch.call(addr, data, static=True)
+            if mut != "view" or not r.ok:
+                fail("exported public variable getter not callable as listed", sig=sig, mutability=mut)
+            decode_strict(e["outputs"], r.out)
             stats["getter_roundtrips"] += 1
             calls_for_caller.append((e, [0] * nin, data))
         elif name in gvar:
@@ -518,6 +543,32 @@ def interface_roundtrip(ctx, K, cfg, out, abi, ch, addr, calls, fail, stats):
             else:
                 fail(f"{kind} entries of the compiled `interface` output differ from the contract ABI",
                      contract=a, iface=b)
+    # the contract must implement its own emitted interface
+    lines0 = K["src"].split("\n")
+    k0 = 1 if lines0 and lines0[0].startswith("# pragma") else 0
+    isrc = "\n".join(lines0[:k0] + ["import gen_iface", "implements: gen_iface"] + lines0[k0:])
+    # (user-defined types are nominal per module, so only signatures without structs/flags can match across the .vyi)
+    def user_types(K):
+        ts = [t for f in K["funcs"] for _, t in f["pos"]] + [k[1] for f in K["funcs"] for k in f["kws"]] + \
+             [t for f in K["funcs"] for _, t in f["ret"]]
+        for pv in K["pubvars"]:
+            p = pv["p"]
+            while p[0] == "map":
+                ts.append(p[1])
+                p = p[2]
+            ts.append(p[1])
+        return any(G.contains(t, ("struct", "flag")) for t in ts)
+    with warnings.catch_warnings():
+        warnings.simplefilter("ignore")
+        try:
+            if not user_types(K):
+                compile_src(isrc, cfg, formats=("bytecode",), contract_path="gen.vy", input_bundle=bundle_for(K, {"gen_iface.vyi": itext}))
+                stats["implements_own_interface"] += 1
+        except VyperException as ex:
+            if stats["interface_indexed_dropped"] and "event" in str(ex).lower():
+                stats["implements_rejected_due_to_indexed"] += 1
+            else:
+                fail("the contract does not implement its own emitted `interface` output", error=str(ex)[:700], interface=itext)
     # caller compiled against external_interface (+ the struct/flag definitions of `interface`)
     header = re.split(r"^# (?:Events|Errors|Functions)$", itext, flags=re.M)[0]
     needs_i0 = "I0" in etext
